@@ -11,6 +11,8 @@ import (
 	"strconv"
 	"strings"
 	"sync"
+	"sync/atomic"
+	"syscall"
 	"testing/fstest"
 	"time"
 
@@ -134,6 +136,11 @@ type depthProbe struct {
 	pcs   []uintptr
 }
 
+// progress counts what a parse visibly does: every octet (or block) that the parser takes from a
+// reader handed to it, every record it returns, every record the consumers have worked through. It
+// is read by the watchdog from another goroutine.
+var progress atomic.Int64
+
 const depthCap = 4096
 
 func (d *depthProbe) sample() {
@@ -151,6 +158,7 @@ type probeReader struct {
 }
 
 func (p *probeReader) Read(b []byte) (int, error) {
+	progress.Add(1)
 	p.d.sample()
 	return p.r.Read(b)
 }
@@ -161,6 +169,7 @@ type probeByteReader struct {
 }
 
 func (p *probeByteReader) ReadByte() (byte, error) {
+	progress.Add(1)
 	if p.d.count++; p.d.count&63 == 0 {
 		p.d.sample()
 	}
@@ -180,6 +189,7 @@ type probeFile struct {
 }
 
 func (f *probeFile) Read(b []byte) (int, error) {
+	progress.Add(1)
 	f.d.sample()
 	return f.File.Read(b)
 }
@@ -306,6 +316,61 @@ func watchdogFor(files map[string]string) time.Duration {
 		d = 300 * time.Second
 	}
 	return d
+}
+
+// A hang is also told from a slow parse by what it consumes: a parse that spins uses CPU time
+// and does nothing that can be seen from outside (it takes no octet from its readers and returns
+// no record), a parse that is merely kept waiting by a loaded machine uses none. stallBudget is the
+// CPU time (user + system, of the whole process: the parse is the only thing that runs in it) that
+// a parse may use without any visible progress: a quarter of the watchdog period, i.e. 5 s for
+// small inputs (between two octets the parser does microseconds of work; the longest steps without
+// a reader call are the expansion of a $GENERATE that yields no record, which the period grows
+// with, and decoding one long token: milliseconds). The wall-clock rule (4 periods) stays for
+// parses that hang without using CPU time.
+func stallBudget(wd time.Duration) time.Duration { return wd / 4 }
+
+var rusage syscall.Rusage // (package level: reading it must not allocate inside the measured window)
+
+// cpuTime: CPU time used by the process so far; false where the system does not tell.
+func cpuTime() (time.Duration, bool) {
+	if err := syscall.Getrusage(syscall.RUSAGE_SELF, &rusage); err != nil {
+		return 0, false
+	}
+	return time.Duration(rusage.Utime.Nano() + rusage.Stime.Nano()), true
+}
+
+// stallWatch follows one parse from the watching goroutine.
+type stallWatch struct {
+	budget   time.Duration
+	last     int64
+	cpuMark  time.Duration
+	wallMark time.Time
+	ok       bool
+}
+
+func newStallWatch(wd time.Duration) *stallWatch {
+	w := &stallWatch{budget: stallBudget(wd), last: progress.Load(), wallMark: time.Now()}
+	w.cpuMark, w.ok = cpuTime()
+	return w
+}
+
+// stalled: the CPU time used since the last visible progress, once it exceeds the budget.
+func (w *stallWatch) stalled() (time.Duration, bool) {
+	if !w.ok {
+		return 0, false
+	}
+	cpu, ok := cpuTime()
+	if !ok {
+		return 0, false
+	}
+	if p := progress.Load(); p != w.last {
+		w.last, w.cpuMark, w.wallMark = p, cpu, time.Now()
+		return 0, false
+	}
+	if used := cpu - w.cpuMark; used >= w.budget && time.Since(w.wallMark) >= w.budget {
+		return used, true
+	}
+	return 0, false
 }
 
 // hangSeen is set when a watchdog fired during the current case: such a violation is reported as
@@ -612,6 +677,7 @@ func runParserOnce(files map[string]string, cfg parserCfg, perRecord func(dns.RR
 	done := make(chan result, 1)
 	wd := watchdogFor(files) // before the parse starts: it scans (and copies) every file
 	timer := time.NewTimer(wd)
+	stall := newStallWatch(wd)
 	runtime.ReadMemStats(&heapStats)
 	heapStart := heapStats.HeapAlloc
 	go func() {
@@ -673,6 +739,7 @@ func runParserOnce(files map[string]string, cfg parserCfg, perRecord func(dns.RR
 				break
 			}
 			out.N++
+			progress.Add(1)
 			if len(out.First) < keepRecords {
 				out.First = append(out.First, rr)
 			}
@@ -701,6 +768,7 @@ func runParserOnce(files map[string]string, cfg parserCfg, perRecord func(dns.RR
 		if perRecord != nil {
 			for _, rr := range out.First {
 				perRecord(rr)
+				progress.Add(1)
 			}
 		}
 		if c := capRecords(); out.N > c {
@@ -725,6 +793,7 @@ func runParserOnce(files map[string]string, cfg parserCfg, perRecord func(dns.RR
 	// (nothing that allocates may run on this goroutine between the start of the parse and its
 	// end: the allocation counter read inside the parse goroutine is that of the whole process)
 	var res result
+	extended := false
 	ticker := heapTicker
 	if ticker == nil {
 		heapTicker = time.NewTicker(250 * time.Millisecond)
@@ -734,6 +803,16 @@ wait:
 	select {
 	case res = <-done:
 	case <-ticker.C:
+		if used, yes := stall.stalled(); yes {
+			hangSeen = true
+			buf := make([]byte, 1<<20)
+			buf = buf[:runtime.Stack(buf, true)]
+			if strings.Contains(string(buf), "miekg/dns") {
+				return &outcome{}, fmt.Errorf("parse did not finish (input %d octets): it has used %v of CPU time without taking an octet from its readers or returning a record (budget %v; wall-clock limit %v); goroutines:\n%s",
+					len(top), used.Round(100*time.Millisecond), stall.budget, time.Duration(confirmRuns+1)*wd, buf), false
+			}
+			return &outcome{}, fmt.Errorf("harness: the stall watch fired but no goroutine is inside the library"), false
+		}
 		// a parse that does not end can also eat memory without end (tens of MB per second);
 		// the live heap of the test process is otherwise a few dozen MB
 		runtime.ReadMemStats(&heapStats)
@@ -744,19 +823,20 @@ wait:
 		goto wait
 	case <-timer.C:
 		// a parse that is merely slow (loaded machine) ends when it is given more time, a hang
-		// does not: the same parse gets three more periods before it is called a hang
-		timer.Reset(time.Duration(confirmRuns) * wd)
-		select {
-		case res = <-done:
-		case <-timer.C:
-			hangSeen = true
-			buf := make([]byte, 1<<20)
-			buf = buf[:runtime.Stack(buf, true)]
-			if strings.Contains(string(buf), "miekg/dns") {
-				return &outcome{}, fmt.Errorf("parse did not finish within %v (input %d octets); goroutines:\n%s", time.Duration(confirmRuns+1)*wd, len(top), buf), false
-			}
-			return &outcome{}, fmt.Errorf("harness: watchdog fired but no goroutine is inside the library"), false
+		// does not: the same parse gets three more periods before it is called a hang (the stall
+		// watch and the heap watch go on meanwhile)
+		if !extended {
+			extended = true
+			timer.Reset(time.Duration(confirmRuns) * wd)
+			goto wait
 		}
+		hangSeen = true
+		buf := make([]byte, 1<<20)
+		buf = buf[:runtime.Stack(buf, true)]
+		if strings.Contains(string(buf), "miekg/dns") {
+			return &outcome{}, fmt.Errorf("parse did not finish within %v (input %d octets); goroutines:\n%s", time.Duration(confirmRuns+1)*wd, len(top), buf), false
+		}
+		return &outcome{}, fmt.Errorf("harness: watchdog fired but no goroutine is inside the library"), false
 	}
 	timer.Stop()
 	out := res.out
